@@ -505,8 +505,21 @@ impl FileFormat {
     }
 
     fn write_header(&self, f: &mut BinWriter, header: &EntryHeaderData) -> WriteResult {
+        // a field that this version of the header cannot hold (or can only hold in 16 bits) is an error
+        let emitter = f.emitter();
+        let fit_u16 = |what: &str, value: u32| u16::try_from(value).map_err(|_| emitter.emit(error!(
+            "value of '{what}' does not fit in this version of the format: {value}",
+        )));
+        let absent = |what: &str, value: u32| match value {
+            0 => Ok(()),
+            _ => Err(emitter.emit(error!("'{what}' is not supported by this version of the format"))),
+        };
+
         if self.version.is_old_header() {
             // old format
+            absent("offset_x", header.offset_x)?;
+            absent("offset_y", header.offset_y)?;
+            absent("low_res_scale", header.low_res_scale)?;
             f.write_u32(header.num_sprites as _)?;
             f.write_u32(header.num_scripts as _)?;
             f.write_u32(0)?;
@@ -527,16 +540,17 @@ impl FileFormat {
 
         } else {
             // new format
+            absent("colorkey", header.colorkey)?;
             f.write_u32(header.version as _)?;
-            f.write_u16(header.num_sprites as _)?;
-            f.write_u16(header.num_scripts as _)?;
+            f.write_u16(fit_u16("number of sprites", header.num_sprites)?)?;
+            f.write_u16(fit_u16("number of scripts", header.num_scripts)?)?;
             f.write_u16(0)?;
-            f.write_u16(header.rt_width as _)?;
-            f.write_u16(header.rt_height as _)?;
-            f.write_u16(header.rt_format as _)?;
+            f.write_u16(fit_u16("rt_width", header.rt_width)?)?;
+            f.write_u16(fit_u16("rt_height", header.rt_height)?)?;
+            f.write_u16(fit_u16("rt_format", header.rt_format)?)?;
             f.write_u32(header.name_offset as _)?;
-            f.write_u16(header.offset_x as _)?;
-            f.write_u16(header.offset_y as _)?;
+            f.write_u16(fit_u16("offset_x", header.offset_x)?)?;
+            f.write_u16(fit_u16("offset_y", header.offset_y)?)?;
             f.write_u32(header.memory_priority as _)?;
             f.write_u32(header.thtx_offset.map(NonZeroU64::get).unwrap_or(0) as _)?;
             f.write_u16(header.has_data as _)?;
